@@ -169,7 +169,7 @@ func collect(rep *core.Report, st stage) []*script {
 	var out []*script
 	seen := map[string]bool{}
 	cfgName, extra := specCfg(st.cfg)
-	res, err := core.RunTLC(core.TLCOpts{Module: "Lease", Cfg: cfgName, ExtraFiles: extra, Workers: 4, Timeout: 10 * time.Minute,
+	res, err := core.RunTLC(core.TLCOpts{Module: "Lease", Cfg: cfgName, ExtraFiles: extra, Workers: 1, Timeout: 10 * time.Minute,
 		OnLine: func(tag string, payload json.RawMessage) {
 			if tag != "TRACE" {
 				return
@@ -317,7 +317,7 @@ func main() {
 
 	// ---- 2. run every script against a real store ----
 	progress("%d scripts", len(scripts))
-	outs := runAll(rep, scripts, core.Pick(args, 40, 40))
+	outs := runAll(rep, scripts, core.Pick(args, 40, 64))
 	progress("scripts executed")
 	if p := os.Getenv("C08_DUMP"); p != "" {
 		var all []event
@@ -435,9 +435,10 @@ func runAll(rep *core.Report, scripts []*script, par int) []*outcome {
 	return outs
 }
 
-// judgeAll evaluates the monitors on every outcome. Failures are grouped by (monitor, signature);
-// per group the shortest failing scripts are executed again and the group is reported only if the
-// same monitor fails with the same signature on the second execution as well (R5).
+// judgeAll evaluates the monitors on every outcome. Failures are grouped by (monitor, signature) and
+// reported once per group with the shortest failing script; for the time-bounded clauses the
+// shortest failing scripts are executed again first and the group is reported only if the same
+// monitor fails with the same signature on the second execution as well (R5).
 func judgeAll(rep *core.Report, outs []*outcome) {
 	type group struct {
 		f    fail
@@ -470,6 +471,25 @@ func judgeAll(rep *core.Report, outs []*outcome) {
 		wg.Add(1)
 		go func(g *group) {
 			defer wg.Done()
+			report := func(o *outcome) {
+				var f1 fail
+				for _, x := range o.fails {
+					if x.Monitor == g.f.Monitor && x.Sig == g.f.Sig {
+						f1 = x
+					}
+				}
+				mu.Lock()
+				rep.Violate(f1.Monitor, f1.Sig, map[string]any{"detail": f1.Detail, "event": f1.Event, "config": o.sc.Cfg.String(), "script": o.sc.compact(), "scripts_with_this_failure": len(g.outs)},
+					map[string]any{"script": o.sc})
+				mu.Unlock()
+			}
+			// only the clauses with a time bound can fail because the machine was slow: those are
+			// executed again; every other failure is a recorded fact (e.g. a frame on the wrong stream)
+			timing := g.f.Monitor == "C08.stops-after-lease-lost" || strings.HasPrefix(g.f.Sig, "close/missing-after-lease-lost")
+			if !timing {
+				report(g.outs[0])
+				return
+			}
 			tries := g.outs
 			if len(tries) > 3 {
 				tries = tries[:3]
@@ -480,16 +500,7 @@ func judgeAll(rep *core.Report, outs []*outcome) {
 				fails2, _ := monitors(again.sc.Cfg, again.log)
 				for _, f2 := range fails2 {
 					if f2.Monitor == g.f.Monitor && f2.Sig == g.f.Sig {
-						var f1 fail
-						for _, x := range o.fails {
-							if x.Monitor == g.f.Monitor && x.Sig == g.f.Sig {
-								f1 = x
-							}
-						}
-						mu.Lock()
-						rep.Violate(f1.Monitor, f1.Sig, map[string]any{"detail": f1.Detail, "event": f1.Event, "config": o.sc.Cfg.String(), "script": o.sc.compact(), "scripts_with_this_failure": len(g.outs)},
-							map[string]any{"script": o.sc})
-						mu.Unlock()
+						report(o)
 						return
 					}
 				}
